@@ -340,3 +340,122 @@ Qed.
 
 Theorem connect_total m T e lo fuel : arith_ok e T -> env_wf e lo -> benign (fst (connect fuel m T e)).
 Proof. intros Ha Hw. eapply run_total; eauto. split; cbn; [lia | exact I]. Qed.
+
+(* ------------------------------------------------------------------------------------------------------- *)
+(* a clock that does not run backwards and passes the deadline *)
+
+Definition nondecr (e : env) : Prop := forall i j, (i <= j)%nat -> e_clock e i <= e_clock e j.
+
+Lemma monotone_settled e T N : nondecr e -> e_clock e N > e_clock e 0%nat + T -> settled e T N.
+Proof. intros Hm HN k Hk. specialize (Hm N k Hk). lia. Qed.
+
+(* a driver that is dead all along / alive all along *)
+Definition usable (s : snap) : Prop :=
+  (exists n, s_file s = FSize n /\ n <> 0) /\ s_ver s <> 0 /\ version_ok (s_ver s) = true.
+
+Definition all_dead (e : env) (T : Z) : Prop :=
+  forall k j k2, (1 <= k)%nat -> usable (e_snap e k j) /\ (wrapu64 (s_hb (e_snap e k j)) <? e_clock e k2 - T) = true.
+Definition all_alive (e : env) (T : Z) : Prop :=
+  forall k j k2, (1 <= k)%nat -> usable (e_snap e k j) /\ s_hb (e_snap e k j) <> 0
+                                 /\ (wrapu64 (s_hb (e_snap e k j)) <? e_clock e k2 - T) = false.
+
+Theorem connect_dead_driver m T e N lo fuel :
+  arith_ok e T -> settled e T N -> env_wf e lo -> all_dead e T -> (6 * N <= fuel)%nat ->
+  exists w t, fst (connect fuel m T e) = RErr ENoHeartbeat w t /\ (snd (connect fuel m T e) <= S N)%nat.
+Proof.
+  intros Ha Hs Hw Hd Hf.
+  destruct (connect_terminates m T e N fuel Ha Hs Hf) as [Hnh HK].
+  destruct (connect_total m T e lo fuel Ha Hw) as [Hnp Hnu].
+  pose proof (connect_sound m T e fuel Ha) as Hp.
+  destruct (connect fuel m T e) as [r K]. cbn [fst snd] in *.
+  destruct r as [n v h1 t h2 | er w t | | |]; try congruence; cbn [post] in Hp.
+  - exfalso. destruct Hp as (HK2 & -> & -> & Hst & _).
+    destruct (Hd K 0%nat (K - 1)%nat ltac:(lia)) as [_ H]. congruence.
+  - destruct er; cbn [post] in Hp.
+    + exfalso. destruct Hp as (HK1 & j & Hf2). destruct (Hd K j 0%nat HK1) as [((n & Hn & Hn0) & _) _].
+      destruct Hf2; congruence.
+    + exfalso. destruct Hp as (HK2 & _ & _ & j & Hf2). destruct (Hd (K - 1)%nat j 0%nat ltac:(lia)) as [((n & Hn & Hn0) & _) _]. congruence.
+    + exfalso. destruct Hp as (HK2 & _ & _ & j & Hf2). destruct (Hd (K - 1)%nat j 0%nat ltac:(lia)) as [(_ & Hv & _) _]. congruence.
+    + exfalso. destruct Hp as (HK1 & Hw0 & Hvo & j & Hf2). destruct (Hd K j 0%nat HK1) as [(_ & _ & Hv) _]. congruence.
+    + exists w, t. split; [reflexivity | exact HK].
+Qed.
+
+Theorem connect_live_driver m T e N lo fuel :
+  arith_ok e T -> settled e T N -> env_wf e lo -> all_alive e T -> (6 * N <= fuel)%nat ->
+  exists n v h1 t h2, fst (connect fuel m T e) = ROk n v h1 t h2.
+Proof.
+  intros Ha Hs Hw Hl Hf.
+  destruct (connect_terminates m T e N fuel Ha Hs Hf) as [Hnh HK].
+  destruct (connect_total m T e lo fuel Ha Hw) as [Hnp Hnu].
+  pose proof (connect_sound m T e fuel Ha) as Hp.
+  destruct (connect fuel m T e) as [r K]. cbn [fst snd] in *.
+  destruct r as [n v h1 t h2 | er w t | | |]; try congruence; cbn [post] in Hp.
+  - exists n, v, h1, t, h2. reflexivity.
+  - exfalso. destruct er; cbn [post] in Hp.
+    + destruct Hp as (HK1 & j & Hf2). destruct (Hl K j 0%nat HK1) as [((n & Hn & Hn0) & _) _]. destruct Hf2; congruence.
+    + destruct Hp as (HK2 & _ & _ & j & Hf2). destruct (Hl (K - 1)%nat j 0%nat ltac:(lia)) as [((n & Hn & Hn0) & _) _]. congruence.
+    + destruct Hp as (HK2 & _ & _ & j & Hf2). destruct (Hl (K - 1)%nat j 0%nat ltac:(lia)) as [(_ & Hv & _) _]. congruence.
+    + destruct Hp as (HK1 & Hw0 & Hvo & j & Hf2). destruct (Hl K j 0%nat HK1) as [(_ & _ & Hv) _]. congruence.
+    + destruct Hp as (HK2 & -> & _ & [(_ & j & Hj)|(-> & Hst)]).
+      * destruct (Hl (K - 1)%nat j 0%nat ltac:(lia)) as (_ & Hh & _). congruence.
+      * destruct (Hl K 0%nat (K - 1)%nat ltac:(lia)) as (_ & _ & Hh). congruence.
+Qed.
+
+(* the verdicts spelled out *)
+Theorem connect_ok_means m T e fuel n v h1 t h2 : arith_ok e T ->
+  fst (connect fuel m T e) = ROk n v h1 t h2 ->
+  let K := snd (connect fuel m T e) in
+  (2 <= K)%nat
+  /\ t = e_clock e (K - 1) /\ h2 = s_hb (e_snap e K 0%nat) /\ (wrapu64 h2 <? t - T) = false   (* judged fresh *)
+  /\ h1 <> 0 /\ (exists j, h1 = s_hb (e_snap e (K - 1) j))                                     (* a heartbeat was seen *)
+  /\ v <> 0 /\ version_ok v = true /\ (exists k j, (1 <= k <= K - 1)%nat /\ s_ver (e_snap e k j) = v)
+  /\ (exists k j n0, (1 <= k <= K - 1)%nat /\ s_file (e_snap e k j) = FSize n0 /\ n0 <> 0 /\ n = wrap32 n0).
+Proof.
+  intros Ha E. pose proof (connect_sound m T e fuel Ha) as Hp. rewrite E in Hp. cbn [post] in Hp. cbn zeta.
+  destruct Hp as (H1 & H2 & H3 & H4 & (H5 & H6 & H7 & H8) & H9 & H10). repeat split; auto.
+Qed.
+
+Theorem connect_timeout_means m T e fuel er w t : arith_ok e T ->
+  fst (connect fuel m T e) = RErr er w t -> er = ENotCreated \/ er = ENotInitialised \/ er = ENoHeartbeat ->
+  let K := snd (connect fuel m T e) in
+  (2 <= K)%nat /\ t = e_clock e (K - 1) /\ t > e_clock e 0%nat + T                            (* only past the deadline *)
+  /\ match er with
+     | ENotCreated => exists j, s_file (e_snap e (K - 1) j) = FSize 0
+     | ENotInitialised => exists j, s_ver (e_snap e (K - 1) j) = 0
+     | _ => (w = 0 /\ exists j, s_hb (e_snap e (K - 1) j) = 0) \/ (w = s_hb (e_snap e K 0%nat) /\ (wrapu64 w <? t - T) = true)
+     end.
+Proof.
+  intros Ha E Her. pose proof (connect_sound m T e fuel Ha) as Hp. rewrite E in Hp. cbn zeta.
+  destruct Her as [->|[->| ->]]; cbn [post] in Hp; destruct Hp as (H1 & H2 & H3 & H4); repeat split; auto.
+Qed.
+
+Theorem connect_immediate_error_means m T e fuel er w t : arith_ok e T ->
+  fst (connect fuel m T e) = RErr er w t -> er = EVersion \/ er = EMapFile ->
+  let K := snd (connect fuel m T e) in
+  (1 <= K)%nat /\
+  match er with
+  | EVersion => w <> 0 /\ version_ok w = false /\ exists j, s_ver (e_snap e K j) = w
+  | _ => exists j, s_file (e_snap e K j) = FMissing \/ s_file (e_snap e K j) = FSize 0
+  end.
+Proof.
+  intros Ha E Her. pose proof (connect_sound m T e fuel Ha) as Hp. rewrite E in Hp. cbn zeta.
+  destruct Her as [->| ->]; cbn [post] in Hp; destruct Hp as (H1 & H2); split; auto.
+Qed.
+
+(* with a clock that does not run backwards: the explicit bound *)
+Theorem connect_returns_monotone m T e N fuel :
+  arith_ok e T -> nondecr e -> e_clock e N > e_clock e 0%nat + T -> (6 * N <= fuel)%nat ->
+  fst (connect fuel m T e) <> RHang /\ (snd (connect fuel m T e) <= S N)%nat.
+Proof. intros Ha Hm HN Hf. apply connect_terminates; auto. apply monotone_settled; assumption. Qed.
+
+(* what the exactness assumptions are for: a clock below the time-out *)
+Example tiny_clock_debug_panics :
+  connect_script Debug 100 50 [(mkSnap (FSize 4096) 16 1792 5, 60); (mkSnap (FSize 4096) 16 1792 5, 400)] = (KPanic, 2%Z).
+Proof. vm_compute. reflexivity. Qed.
+(* ... and a time-out above the clock value: in a release build time - timeout wraps, a live driver is judged stale
+   and found only once the clock has reached the time-out value (here at the third attempt instead of the first) *)
+Example timeout_above_clock_release_misjudges :
+  connect_script Release 2000 1000 [(mkSnap (FSize 4096) 16 1792 1000, 1001); (mkSnap (FSize 4096) 16 1792 1001, 1002);
+                                    (mkSnap (FSize 4096) 16 1792 2500, 2500); (mkSnap (FSize 4096) 16 1792 2500, 3501)]
+  = (KOk, 4%Z).
+Proof. vm_compute. reflexivity. Qed.
